@@ -82,13 +82,42 @@ def count_obligations(propfile):
     names = re.findall(r"^\s*(?:Theorem|Lemma|Example|Corollary)\s+(\w+)", txt, flags=re.M)
     return names
 
-def build_runner(tag):
+def build_runner(tag, race=False):
     os.makedirs(BUILD, exist_ok=True)
     with Lock("go"):
         shutil.copy(os.path.join(REPO, "go.sum"), os.path.join(HARNESS, "go.sum"))
         out = os.path.join(BUILD, "runner." + tag)
-        rc, log = sh(["go", "build", "-tags", "verif", "-o", out, "./cmd/runner"], cwd=HARNESS, env=GOENV, timeout=1200)
+        cmd = ["go", "build", "-tags", "verif"] + (["-race"] if race else []) + ["-o", out, "./cmd/runner"]
+        rc, log = sh(cmd, cwd=HARNESS, env=GOENV, timeout=1800)
     return rc, log, out
+
+def run_race_suite(pid, P, tier, seed):
+    """build the runner with the race detector and run the property's race suite;
+    returns (failures, info). A DATA RACE report is itself a failing schedule."""
+    rc, log, runner = build_runner(pid + ".race", race=True)
+    if rc != 0:
+        return [], {"error": "race build failed: " + log[-800:]}
+    rdir = os.path.join(BUILD, pid + ".race")
+    shutil.rmtree(rdir, ignore_errors=True)
+    env = dict(GOENV, GORACE="halt_on_error=0")
+    rcr, out = sh([runner, P["race_suite"], "-seed", str(seed), "-n", str(P["n"][tier]), "-tier", tier, "-out", rdir],
+                  cwd=VERIF, env=env, timeout=P.get("runner_timeout", 3000))
+    fails = []
+    nrace = out.count("WARNING: DATA RACE")
+    if nrace:
+        i = out.index("WARNING: DATA RACE")
+        fails.append({"key": "data-race", "what": "the race detector reported %d data race(s)" % nrace,
+                      "input": {"suite": P["race_suite"], "seed": seed}, "got": out[i:i + 1800], "want": "no data race"})
+    st = {}
+    try:
+        st = json.load(open(os.path.join(rdir, "stats.json")))
+        fails += st.get("failures") or []
+    except Exception:
+        if not nrace: fails.append({"key": "race-runner", "what": "race suite did not finish: " + out[-600:], "input": None, "got": None, "want": None})
+    shutil.rmtree(rdir, ignore_errors=True)
+    try: os.remove(runner)
+    except Exception: pass
+    return fails, {"race_suite": P["race_suite"], "races_reported": nrace, "race_cases": st.get("evaluations", 0), "race_distribution": st.get("distribution", {})}
 
 def run_cases(casedir, timeout=1800):
     """evaluate every cases_*.v shard with coqc; return list of bad indices or error text"""
@@ -207,9 +236,15 @@ def run_check(pid, reg, tier, seed, replay=None):
         try: os.remove(runner)
         except Exception: pass
 
+    # 2b. schedules under the race detector
+    race_info = {}
+    race_fails = []
+    if P.get("race_suite"):
+        race_fails, race_info = run_race_suite(pid, P, tier, seed)
+
     # 3. oracle failures vs known findings
     kf, fixed = load_known()
-    for fl in (stats.get("failures") or []):
+    for fl in (stats.get("failures") or []) + race_fails:
         k = [x for x in kf if x[0] == pid and key_matches(x[1], fl["key"])]
         if k: known_seen.append((k[0][1], k[0][2]))
         else: violations.append(fl)
@@ -275,7 +310,7 @@ def run_check(pid, reg, tier, seed, replay=None):
         "distribution": stats.get("distribution", {}), "correspondence_mismatches": len(mism),
         "oracle_failures": len(stats.get("failures") or []), "known_findings_seen": sorted(seen),
         "search_rounds": searched, "gen_changed": gen_changed, "extra": stats.get("extra", {}),
-        "proof_build_s": round(bt, 1),
+        "proof_build_s": round(bt, 1), "race": race_info,
     }
     evid["coverage"] = cov
     evid["assumptions"] = P.get("assumes", [])
